@@ -3,8 +3,11 @@
 (B) theorems: lean/HeimdallModel/Props/C01.lean about Model/Pipeline.lean + Model/EntryPoints.lean.
 (A) tie: family `pipeline` — the real rule-set parser, rule factory (CEL conditions, error handlers), repository,
     executor and the three real services on loopback ports are driven with rules whose mechanisms replay a scripted
-    outcome vector; answers and mechanism traces are compared with the Lean model, and the positive answers with the
-    executable specification (`expectedPositive`)."""
+    outcome vector; the error handlers are the real ones, configured with `to` templates / realms / `if` conditions
+    that read what the client sent (header X-C01-To, query parameter `to`, URL parts), and the requests are chosen so
+    that the templates render to a URL, to nothing, to blanks, to several lines, or fail; answers and mechanism traces
+    are compared with the Lean model, and the positive answers with the executable specification
+    (`expectedPositive`)."""
 import concurrent.futures
 import copy
 import json
@@ -33,10 +36,12 @@ def run_parallel(cmd, cases, workers):
 
 
 def canon_impl(i):
-    """load-time rejections are compared as such, not by the stage that rejected"""
+    """load-time rejections are compared as such, not by the stage that rejected; keys starting with "_" are
+    observations for the evidence (what the Location header looked like), not part of the compared answer"""
     if not isinstance(i, dict):
         return i
-    return {k: ({"load": "rejected"} if isinstance(v, dict) and "load" in v else v) for k, v in i.items()}
+    return {k: ({"load": "rejected"} if isinstance(v, dict) and "load" in v else v) for k, v in i.items()
+            if not k.startswith("_")}
 
 
 def differs(i, m):
@@ -97,6 +102,8 @@ def shrink(exe, case, fails):
 
     def attempt(cand):
         nonlocal cur
+        # whether a template renders / a request-dependent condition holds is a function of the request
+        gen_pipeline.derive(cand)
         if vlib.canon(cand) != vlib.canon(cur) and fails(cand):
             cur = cand
             return True
@@ -126,7 +133,8 @@ def shrink(exe, case, fails):
                     else:
                         idx += 1
                 for idx in range(len(cur[key].get(lst, []))):
-                    for fld, val in (("cond", None), ("coe", False), ("fb", False), ("kinds", [])):
+                    for fld, val in (("cond", None), ("coe", False), ("fb", False), ("kinds", []), ("realm", None),
+                                     ("rrealm", None), ("to", "static"), ("code", 0)):
                         if cur[key][lst][idx].get(fld) not in (None, val):
                             c = copy.deepcopy(cur)
                             c[key][lst][idx][fld] = val
@@ -139,6 +147,11 @@ def shrink(exe, case, fails):
             if cur.get(fld) != val:
                 c = copy.deepcopy(cur)
                 c[fld] = val
+                changed |= attempt(c)
+        for fld in ("hdr", "q"):
+            if (cur.get("req") or {}).get(fld) is not None:
+                c = copy.deepcopy(cur)
+                c["req"][fld] = None
                 changed |= attempt(c)
     return cur
 
@@ -200,6 +213,11 @@ def run(R):
     accepts = {}
     levels = {}
     trace_and_broken_condition = 0
+    to_nominal = {}      # `to` template x nominal rendering class, over all configured redirect handlers
+    observed_loc = {ep: {} for ep in EPS}   # Location header of the answers (a redirect handler ran), per class
+    req_dist = {}
+    req_conds = {"true": 0, "false": 0}
+    realms = {}
     for c, i, m in zip(cases, impl, model):
         if gen_pipeline.nontrivial(c):
             nontriv.add(vlib.case_hash(c))
@@ -225,6 +243,28 @@ def run(R):
                 verbosity["verbose_and_negotiation_fails"] += 1
                 if st.get("decision") in ("error-handled", "error-returned", "no-rule", "panic"):
                     verbosity["verbose_negotiation_fails_and_error_answer"] += 1
+        rq = c.get("req") or {}
+        rk = "hdr=" + gen_pipeline.render_class(rq.get("hdr") is not None, rq.get("hdr")).replace("fails", "absent") \
+            + ",q=" + gen_pipeline.render_class(rq.get("q") is not None, rq.get("q")).replace("fails", "absent")
+        req_dist[rk] = req_dist.get(rk, 0) + 1
+        for key in ("rule", "default"):
+            for st in (c.get(key) or {}).get("hand", []) + (c.get(key) or {}).get("fin", []) \
+                    + (c.get(key) or {}).get("eh", []):
+                if (st.get("cond") or {}).get("on"):
+                    req_conds["true" if st["cond"]["lit"] else "false"] += 1
+            for e in (c.get(key) or {}).get("eh", []):
+                if e.get("kind") == "redirect":
+                    tk = (e.get("to") or ("static" if e.get("render", True) else "fail")) + ":" + \
+                        gen_pipeline.render_class(e.get("render", True), e.get("rendered"))
+                    to_nominal[tk] = to_nominal.get(tk, 0) + 1
+                elif e.get("kind") == "www":
+                    for fld in ("realm", "rrealm"):
+                        rk2 = fld + "=" + json.dumps(e.get(fld))
+                        realms[rk2] = realms.get(rk2, 0) + 1
+        if isinstance(i, dict):
+            for ep, cl in (i.get("_obs") or {}).items():
+                if cl != "none" and ep in observed_loc:
+                    observed_loc[ep][cl] = observed_loc[ep].get(cl, 0) + 1
         d = c.get("rule") or c.get("default") or {}
         k = len(d.get("auth", [])) + len(d.get("hand", [])) + len(d.get("fin", []))
         steps_hist[str(k)] = steps_hist.get(str(k), 0) + 1
@@ -232,9 +272,13 @@ def run(R):
         "evaluations": len(cases), "distinct_nontrivial": len(nontriv),
         "rule": "a case = status overrides, respond.verbose and log.level (trace/debug/info/warn/disabled; logger "
                 "of the request context) of the services, the request's Accept header (absent, "
-                "acceptable, unsupported, malformed), a rule and/or default rule (0-3 authenticators, 0-4 "
-                "authorizers/contextualizers, 0-3 finalizers, 0-3 error handlers; per step an outcome ok/error "
-                "kinds/panic, an `if` condition true/false/on subject/on error type/not evaluable, fallback and "
+                "acceptable, unsupported, malformed), the request's X-C01-To header and `to` query parameter (absent, "
+                "URL, empty, blank, multi-line, not a URL), a rule and/or default rule (0-3 authenticators, 0-4 "
+                "authorizers/contextualizers, 0-3 finalizers, 0-3 error handlers: default / www_authenticate with "
+                "varied catalogue and rule-level realm / redirect whose `to` template is static, fails, or reads the "
+                "header, the query parameter, the URL; per step an outcome ok/error "
+                "kinds/panic, an `if` condition true/false/on subject/on error type/on the request's header, query, "
+                "path/not evaluable, fallback and "
                 "continue-on-error flags), whether the request matches the rule, the upstream's status; each case is "
                 "sent through the real decision, Envoy ext_authz and proxy services and through the Lean model; "
                 "non-trivial = the outcome vector contains a failure (error, panic, condition that cannot be "
@@ -247,6 +291,11 @@ def run(R):
         "log_level_distribution": dict(sorted(levels.items())),
         "trace_level_with_non_evaluable_condition_on_mandatory_step": trace_and_broken_condition,
         "verbosity_distribution": verbosity, "accept_header_distribution": dict(sorted(accepts.items())),
+        "request_data_distribution": dict(sorted(req_dist.items())),
+        "redirect_to_template_x_nominal_rendering": dict(sorted(to_nominal.items())),
+        "location_header_observed_in_answers": {ep: dict(sorted(v.items())) for ep, v in observed_loc.items()},
+        "request_dependent_conditions": req_conds,
+        "www_authenticate_realms": dict(sorted(realms.items())),
         "cases_rejected_at_load": rejected,
         "pipeline_length_histogram": dict(sorted(steps_hist.items(), key=lambda kv: int(kv[0]))),
         "samples": [cases[len(corpus)]] if len(cases) > len(corpus) else cases[:1],
@@ -263,15 +312,25 @@ def run(R):
         "the upstream answers (no communication failure while proxying); WriteHeader with codes outside 100..999 "
         "is not modelled; a Go error is modelled by the sentinels errors.Is can see in it",
         "CEL evaluation, text/template, net/http, httputil.ReverseProxy, grpc-go are exercised, not modelled",
+        "what an error handler's configuration makes of the request is a parameter of the model (`Rendered`: the "
+        "`to` template fails / renders to some string; request-dependent `if` conditions: their truth value): the "
+        "generator computes it for its 11 templates and 4 request questions from the request it sends, and the "
+        "comparison of the answers validates that; the value of the Location header is not compared (not C01's "
+        "subject), its class is only counted in the evidence",
         "content negotiation of the Accept header is a request attribute of the model (`negotiable`), tabulated for "
         "the 11 generated header values and validated through the observed presence of an error body; body content "
         "and content type are out of scope (C12)",
     ]
 
     # ---- verdict
+    reported = set()
     for c, i, m, eps in bad_spec[:2]:
         ep = eps[0]
         sc = shrink(exe, c, lambda x, ep=ep: ep in spec_violations(*one(exe, x)))
+        sc.pop("note", None)
+        if vlib.case_hash(sc) in reported:
+            continue
+        reported.add(vlib.case_hash(sc))
         si, sm = one(exe, sc)
         R.violation(describe(sc, ep, si, sm),
                     {"case": sc, "impl": si, "model": vlib.res_of(sm), "spec": sm.get("spec") if isinstance(sm, dict)
